@@ -282,7 +282,9 @@ class IntegralSolverPySCF(IntegralSolver):
         hcore = sqmol.mean_field.get_hcore()
 
         # step 3 : obatin two-electron integral in atomic basis
-        eri = self.ao2mo.restore(8, sqmol.mean_field._eri, nao)
+        # PySCF does not keep the integrals in the mean-field object in every case (e.g. one-electron systems)
+        ao_eri = sqmol.mean_field._eri if sqmol.mean_field._eri is not None else sqmol.mean_field.mol.intor("int2e")
+        eri = self.ao2mo.restore(8, ao_eri, nao)
 
         # step 4 : create the placeholder for the matrices
         # one-electron matrix (alpha, beta)
